@@ -575,3 +575,47 @@ def replay_subgraph_scanning(o, model):
             return dict(ok=True, function="MinFlowDecomp (use_subgraph_scanning_lowerbound)", **rec)
         tried.append(rec)
     return dict(ok=False, function="MinFlowDecomp (use_subgraph_scanning_lowerbound)", tried=tried)
+
+
+def replay_lowerbound_k(o, model):
+    """native replay for MinFlowDecomp.get_lowerbound_k: on small DAG flows (some with ignored flow-carrying edges) MinFlowDecomp - default options, with the
+    min-gen-set bound, with an explicit lowerbound_k option - must return as many paths as the smallest k for which kFlowDecomp is feasible (found by trying k = 1, 2, ...)."""
+    import networkx as nx
+    import flowpaths as fp
+    INST = [
+        ([("s", "a", 3), ("a", "t", 3)], []),
+        ([("s", "a", 2), ("s", "b", 1), ("a", "t", 2), ("b", "t", 1)], []),
+        ([("s", "a", 5), ("a", "b", 3), ("a", "c", 2), ("b", "t", 3), ("c", "t", 2)], [("a", "c")]),
+        ([("s", "a", 7), ("a", "b", 1), ("a", "c", 2), ("a", "d", 4), ("b", "t", 1), ("c", "t", 2), ("d", "t", 4)], [("a", "b"), ("a", "c")]),
+        ([("s", "a", 6), ("a", "b", 2), ("a", "c", 4), ("b", "d", 2), ("c", "d", 4), ("d", "e", 5), ("d", "f", 1), ("e", "t", 5), ("f", "t", 1)], []),
+        ([("s", "a", 1), ("s", "b", 2), ("s", "c", 4), ("a", "t", 1), ("b", "t", 2), ("c", "t", 4)], [("s", "b"), ("b", "t")]),
+        ([("x", "z", 1), ("y", "z", 2)], []),
+        ([("x", "y", 3), ("y", "z", 1), ("y", "w", 2)], []),
+        ([("x", "m", 1), ("y", "m", 2), ("m", "z", 1), ("m", "w", 2)], [("x", "m")]),
+    ]
+    tried = []
+    for E, ign in INST:
+        def build():
+            G = nx.DiGraph()
+            for a, b, w in E:
+                G.add_edge(a, b, flow=w)
+            return G
+        true_min = None
+        for k in range(1, len(E) + 1):
+            m = fp.kFlowDecomp(build(), flow_attr="flow", k=k, weight_type=int, elements_to_ignore=list(ign), optimization_options={"optimize_with_greedy": False})
+            m.solve()
+            if m.is_solved():
+                true_min = k
+                break
+        for opts in ({}, {"use_min_gen_set_lowerbound": True}, {"lowerbound_k": 1}, {"optimize_with_greedy": False}):
+            try:
+                m = fp.MinFlowDecomp(build(), flow_attr="flow", weight_type=int, elements_to_ignore=list(ign), optimization_options=dict(opts))
+                m.solve()
+                got = len(m.get_solution()["paths"]) if m.is_solved() else "unsolved"
+            except Exception as e:      # noqa
+                got = "raised %s: %s" % (type(e).__name__, str(e)[:80])
+            rec = dict(edges=E, ignored=ign, options=opts, paths=got, smallest_feasible_k=true_min)
+            if got != true_min:
+                return dict(ok=True, function="MinFlowDecomp (get_lowerbound_k)", **rec)
+            tried.append(rec)
+    return dict(ok=False, function="MinFlowDecomp (get_lowerbound_k)", tried=len(tried))
